@@ -22,6 +22,9 @@ func (e *Engine) verifyBlock(blk *Block) (u *Unit) {
 	c := newCtx(e, name)
 	c.props = blk.Props
 	c.block = blk
+	if blk.Fuel > 0 {
+		c.fuel = blk.Fuel
+	}
 	u = &Unit{Block: blk, Ctx: c}
 	defer func() {
 		if r := recover(); r != nil {
